@@ -74,3 +74,36 @@ Example C13_reverse_example :
   | Err _ => False
   end.
 Proof. vm_compute. repeat split; reflexivity. Qed.
+
+(* Merging in the change that undoes an earlier one removes it: for well-formed A, B over a schema without user-ordered
+   lists, merging diff(B,A) into (a copy of) diff(A,B) gives the EMPTY diff, with either merge option - every cell
+   of the merge table that an undo meets (create/delete, delete/create, replace/replace back, flag change/flag change
+   back, none/none with the level below) ends in an operation none that lyd_diff_is_redundant() removes. *)
+Theorem C13_merge_undo :
+  forall sch mdflt fa fb, schema_nouo sch = true -> wfb sch fa = true -> wfb sch fb = true ->
+  exists d1 d2, diff sch true fa fb = Ok d1 /\ diff sch true fb fa = Ok d2 /\ merge sch mdflt (map redup d1) d2 = Ok [].
+Proof. intros sch mdflt fa fb H. exact (merge_undo sch mdflt H fa fb). Qed.
+Print Assumptions C13_merge_undo.
+
+(* The composition law in the case it is proved for: C = A (the second diff undoes the first).  Missing for the full
+   statement: a proof for arbitrary C - refuted as stated above (C13_merge_apply_refuted: default flag of created
+   non-presence containers); the other cells of the merge table are tied to libyang by the correspondence run and
+   checked on the implementation by dump equality (tools/props/comps_difftree.py), not proved. *)
+Theorem C13_merge_apply_partial :
+  forall sch mdflt fa fb, schema_nouo sch = true -> wfb sch fa = true -> wfb sch fb = true ->
+  exists d1 d2 m, diff sch true fa fb = Ok d1 /\ diff sch true fb fa = Ok d2 /\
+                  merge sch mdflt (map redup d1) d2 = Ok m /\ apply sch m fa = Ok fa.
+Proof.
+  intros sch mdflt fa fb H Ha Hb. destruct (merge_undo sch mdflt H fa fb Ha Hb) as [d1 [d2 [E1 [E2 E3]]]].
+  exists d1, d2, []. repeat split; assumption.
+Qed.
+Print Assumptions C13_merge_apply_partial.
+
+(* the schema of the witnesses has no user-ordered list, the undo theorems apply to it *)
+Example C13_merge_undo_example :
+  schema_nouo w_sch = true /\
+  match diff w_sch true r_A r_B, diff w_sch true r_B r_A with
+  | Ok d1, Ok d2 => d1 <> [] /\ d2 <> [] /\ merge w_sch false (map redup d1) d2 = Ok []
+  | _, _ => False
+  end.
+Proof. vm_compute. repeat split; discriminate. Qed.
